@@ -374,14 +374,20 @@ enum AssertKind {
 /// posting's account and assertion spans; on success the account holds exactly pre + v.
 fn check_assertion(kind: AssertKind) -> (bool, bool) {
     let mut st = pre_state();
-    let v = dec16(0);
+    // v at scale 2 and an optional declared precision of 1 for X: the assertion must be exact, not "equal
+    // after rounding to the commodity's display precision"
+    let v = dec16(2);
     let e = dec16(2);
+    let prec = vk::bool();
+    if prec {
+        st.ctx.commodities.set_format(st.cx, PrettyDecimal::unformatted(Decimal::from_parts(0, 0, 0, false, 1)));
+    }
     let posting = match kind {
         AssertKind::SameCommodity => mk_posting(Some((v, "X")), Some((e, "X"))),
         AssertKind::OtherCommodity => mk_posting(Some((v, "X")), Some((e, "Y"))),
         AssertKind::BareZero => mk_posting(Some((v, "X")), Some((Decimal::ZERO, ""))),
     };
-    vk::note(&|| format!("pre A: {} X, {} Y; posting `A  {} X = {} #{}`", st.a, st.b, v, e, kind as u8));
+    vk::note(&|| format!("pre A: {} X, {} Y; posting `A  {} X = {} #{}`; precision 1 declared for X: {}", st.a, st.b, v, e, kind as u8, prec));
     let new_x = st.a + v;
     let holds = match kind {
         AssertKind::SameCommodity => new_x == e,
